@@ -32,6 +32,9 @@ PROPS = {
             'every write is of an accepted list, result is last written, '
             'only the output file is written (loop invariants, all '
             'schedules)'),
+    'C06': ('contracts.c06', 'proof',
+            'crash-point invariant of write_smtlib_to_file over a ghost '
+            'file system; interrupt handlers write nothing'),
 }
 
 
